@@ -176,7 +176,8 @@ class NumPathsOptimization(pathmodel.AbstractPathModelDAG): # Note that we inher
                     if previous_solution_objective_value is None:
                         previous_solution_objective_value = current_solution_objective_value
                     else:
-                        if abs(previous_solution_objective_value - current_solution_objective_value) / previous_solution_objective_value <= self.stop_on_delta_rel:
+                        # (an objective of 0 cannot improve any further: the relative change is then taken as 0)
+                        if previous_solution_objective_value == 0 or abs(previous_solution_objective_value - current_solution_objective_value) / previous_solution_objective_value <= self.stop_on_delta_rel:
                             solve_status = NumPathsOptimization.solved_status_name
                             break
             else:
